@@ -32,54 +32,69 @@ let xres_name = function
 
 let parse_tok c = (int_of_string (String.sub c 0 (String.length c - 1)), c.[String.length c - 1])
 
+(* every handle has at most one operation outstanding: the token that starts it puts it in h_todo *)
 let lockstep n sched =
   let toks = List.map parse_tok sched in
-  let prog f i = List.filter_map (fun (j, c) -> if j = i then f c else None) toks in
+  let set_nth l i x = List.mapi (fun j y -> if j = i then x else y) l in
   (* model *)
-  let st = ref (LockModel.linit (List.init n (prog lop_of_char))) in
+  let st = ref (LockModel.linit (List.init n (fun _ -> []))) in
   let out = ref [] and flags = ref [] and maxocc = ref 0 in
   List.iter (fun (i, c) ->
-    let h s = List.nth_opt s.LockModel.l_handles i in
-    match h !st with
+    match List.nth_opt !st.LockModel.l_handles i with
     | None -> out := Printf.sprintf "%d:?" i :: !out
     | Some h0 ->
-      let ch = if c = 's' then LockModel.LSig (nat_of_int i) else LockModel.LRun (nat_of_int i) in
-      st := LockModel.lstep ch !st;
-      let h1 = match h !st with Some x -> x | None -> h0 in
-      let l0 = List.length h0.LockModel.h_log and l1 = List.length h1.LockModel.h_log in
-      if l1 > l0 then begin
-        let (o, s) = List.nth h1.LockModel.h_log (l1 - 1) in
-        out := Printf.sprintf "%d:%c=%s" i c (sname s) :: !out;
-        (match flags_of_lop o with Some f -> flags := string_of_int f :: !flags | None -> ())
-      end else if c = 's' then out := Printf.sprintf "%d:s" i :: !out
-      else if c = 'r' && not h0.LockModel.h_waiting then out := Printf.sprintf "%d:r=idle" i :: !out
-      else if h0.LockModel.h_waiting && c <> 'r' then out := Printf.sprintf "%d:%c=busy" i c :: !out
-      else out := Printf.sprintf "%d:%c=sleep" i c :: !out;
+      let waiting = h0.LockModel.h_waiting in
+      if c = 'r' && not waiting then out := Printf.sprintf "%d:r=idle" i :: !out
+      else if c <> 'r' && c <> 's' && waiting then out := Printf.sprintf "%d:%c=busy" i c :: !out
+      else begin
+        (match lop_of_char c with
+         | Some o ->
+           st := { !st with LockModel.l_handles =
+                              set_nth !st.LockModel.l_handles i { h0 with LockModel.h_todo = [o] } }
+         | None -> ());
+        let ch = if c = 's' then LockModel.LSig (nat_of_int i) else LockModel.LRun (nat_of_int i) in
+        st := LockModel.lstep ch !st;
+        let h1 = List.nth !st.LockModel.l_handles i in
+        let l0 = List.length h0.LockModel.h_log and l1 = List.length h1.LockModel.h_log in
+        if l1 > l0 then begin
+          let (o, s) = List.nth h1.LockModel.h_log (l1 - 1) in
+          out := Printf.sprintf "%d:%c=%s" i c (sname s) :: !out;
+          (match flags_of_lop o with Some f -> flags := string_of_int f :: !flags | None -> ())
+        end else if c = 's' then out := Printf.sprintf "%d:s" i :: !out
+        else out := Printf.sprintf "%d:%c=sleep" i c :: !out
+      end;
       let occ = List.length (List.filter (fun x -> x.LockModel.h_believes) !st.LockModel.l_handles) in
       if occ > !maxocc then maxocc := occ) toks;
-  let m = Printf.sprintf "%s maxocc=%d viol=%d slow=0 free=%d || flags=%s" (String.concat " " (List.rev !out))
+  let m = Printf.sprintf "%s maxocc=%d viol=%d slow=0 free=%d || flags=%s unexpected=0" (String.concat " " (List.rev !out))
       !maxocc (if !maxocc > 1 then 1 else 0) (if !st.LockModel.l_holder = None then 1 else 0)
       (if !flags = [] then "-" else String.concat "," (List.rev !flags)) in
   (* spec *)
-  let sp = ref (LockSpec.spec_lock_init (List.init n (prog xop_of_char))) in
+  let sp = ref (LockSpec.spec_lock_init (List.init n (fun _ -> []))) in
   let sout = ref [] in
   List.iter (fun (i, c) ->
-    let h s = List.nth_opt s.LockSpec.x_handles i in
-    match h !sp with
+    match List.nth_opt !sp.LockSpec.x_handles i with
     | None -> sout := Printf.sprintf "%d:?" i :: !sout
     | Some h0 ->
-      let ch = if c = 's' then LockSpec.XInterrupt (nat_of_int i) else LockSpec.XRun (nat_of_int i) in
-      sp := LockSpec.spec_lock_step ch !sp;
-      let h1 = match h !sp with Some x -> x | None -> h0 in
-      let l0 = List.length h0.LockSpec.x_done and l1 = List.length h1.LockSpec.x_done in
-      if l1 > l0 then begin
-        let (_, r) = List.nth h1.LockSpec.x_done (l1 - 1) in
-        (* an abandoned wait: the property only says it must not be reported as success *)
-        sout := (if r = LockSpec.XOther then "*" else Printf.sprintf "%d:%c=%s" i c (xres_name r)) :: !sout
-      end else if c = 's' then sout := Printf.sprintf "%d:s" i :: !sout
-      else if c = 'r' && not h0.LockSpec.x_waiting then sout := Printf.sprintf "%d:r=idle" i :: !sout
-      else if h0.LockSpec.x_waiting && c <> 'r' then sout := Printf.sprintf "%d:%c=busy" i c :: !sout
-      else sout := Printf.sprintf "%d:%c=sleep" i c :: !sout) toks;
+      let waiting = h0.LockSpec.x_waiting in
+      if c = 'r' && not waiting then sout := Printf.sprintf "%d:r=idle" i :: !sout
+      else if c <> 'r' && c <> 's' && waiting then sout := Printf.sprintf "%d:%c=busy" i c :: !sout
+      else begin
+        (match xop_of_char c with
+         | Some o ->
+           sp := { !sp with LockSpec.x_handles =
+                              set_nth !sp.LockSpec.x_handles i { h0 with LockSpec.x_todo = [o] } }
+         | None -> ());
+        let ch = if c = 's' then LockSpec.XInterrupt (nat_of_int i) else LockSpec.XRun (nat_of_int i) in
+        sp := LockSpec.spec_lock_step ch !sp;
+        let h1 = List.nth !sp.LockSpec.x_handles i in
+        let l0 = List.length h0.LockSpec.x_done and l1 = List.length h1.LockSpec.x_done in
+        if l1 > l0 then begin
+          let (_, r) = List.nth h1.LockSpec.x_done (l1 - 1) in
+          (* an abandoned wait: the property only says it must not be reported as success *)
+          sout := (if r = LockSpec.XOther then "*" else Printf.sprintf "%d:%c=%s" i c (xres_name r)) :: !sout
+        end else if c = 's' then sout := Printf.sprintf "%d:s" i :: !sout
+        else sout := Printf.sprintf "%d:%c=sleep" i c :: !sout
+      end) toks;
   let s = Printf.sprintf "%s * viol=0 slow=0 free=%d" (String.concat " " (List.rev !sout))
       (if !sp.LockSpec.x_owner = None then 1 else 0) in
   (m, s)
@@ -87,7 +102,7 @@ let lockstep n sched =
 let () =
   iter_lines (fun line ->
     match split_ws line with
-    | ["F"; op; mode; rc; e] ->
+    | ["F"; op; mode; rc; e; _] ->   (* the open mode of the FILE plays no role in the prescribed call *)
       let m = if mode = "B" then LockModel.BLOCK else LockModel.TRY in
       let flags = int_of_z (if op = "L" then LockModel.lock_flags m else LockModel.unlock_flags m) in
       let r = if int_of_string rc = 0 then SemErrnoModel.KOk else SemErrnoModel.KErr (z_of_int (int_of_string e)) in
@@ -98,6 +113,6 @@ let () =
         else "*" in
       Printf.printf "M st=%s || calls=1 flock(fd,%s)\nS %s\n" st (flag_names flags) s
     | ["P"; kinds; sched] ->
-      let (m, s) = lockstep (String.length kinds) (String.split_on_char ',' sched) in
+      let (m, s) = lockstep (String.length kinds / 2) (String.split_on_char ',' sched) in
       Printf.printf "M %s\nS %s\n" m s
     | _ -> Printf.printf "M ?\nS ?\n")
